@@ -238,7 +238,10 @@ class Statement(object):
                 force_16_bit = True
             else:
                 constant = constant if expression.operation == "+" else -constant
-                if positive_range:
+                if rel_index == this_index:
+                    # the label of this very statement: the displacement spans the statement itself, backwards
+                    lowest = highest = constant - self.code_pkg.size - 1
+                elif positive_range:
                     lowest, highest = min_size - 2 - self.code_pkg.size + constant, max_size + constant
                 else:
                     lowest, highest = constant - max_size, constant - min_size
